@@ -280,7 +280,8 @@ def run_tlc(module, cfg, *, trace_file=None, env=None, workers=1, simulate=None,
             shutil.copy(f, scratch)
         cfgpath = cfg if os.path.isabs(cfg) else os.path.join(SPEC, cfg)
         shutil.copy(cfgpath, os.path.join(scratch, "run.cfg"))
-        jopts = ["-XX:+UseParallelGC", "-Xss64m"] + list(java_opts)
+        gc = ["-XX:+UseParallelGC"] if workers > 2 else ["-XX:+UseSerialGC", "-Xmx3g"]
+        jopts = gc + ["-Xss64m", "-XX:TieredStopAtLevel=4"] + list(java_opts)
         if dfs:
             jopts.append("-Dtlc2.tool.queue.IStateQueue=StateDeque")
         cmd = ["java"] + jopts + ["-cp", JAR + ":" + DEPS, "tlc2.TLC",
